@@ -5,6 +5,12 @@
 # 1. base clone (unchanged): demo must PASS;  2. + patch: pinned tests (incremental) must pass,
 # demo must FAIL;  3. patch reverted;  4. lib/mutcheck.sh <PID> patch.diff -> caught / missed.
 # Results are appended to <dir>/verify.log (same format as seeded_verify.sh).
+if [ "$1" = "--append" ]; then
+  PID="$2"; D="$(readlink -f "$3")"
+  echo "== our check against the patched tree" >> "$D/verify.log"
+  grep -E "VIOLATION|property=$PID tier|INCONCLUSIVE|patch does not|^  " "$4" | cut -c1-300 | head -8 | tee -a "$D/verify.log"
+  exit 0
+fi
 PID="$1"; D="$(readlink -f "$2")"; C="$(readlink -f "$3")"
 HERE="$(cd "$(dirname "$0")/.." && pwd)"
 RUNP="${RUN_PINNED:-/var/tmp/run_pinned_nj.sh}"
@@ -19,5 +25,8 @@ if ! git -C "$C" apply "$D/patch.diff"; then echo "PATCH DOES NOT APPLY" | tee -
 ( cd "$D" && REPO_DIR="$C" bash -c "$(cat build_and_run.txt)" ) > "$D/demo_changed.out" 2>&1; echo "demo exit (changed) = $?" | tee -a "$LOG"
 tail -2 "$D/demo_changed.out" | tee -a "$LOG"
 git -C "$C" checkout -q -- .
+# SKIP_MUTCHECK=1: the check is run separately (in parallel); its filtered output is
+# appended to verify.log afterwards with lib/seeded_verify_fast.sh --append <PID> <dir> <mutcheck output>
+[ -n "$SKIP_MUTCHECK" ] && exit 0
 echo "== our check against the patched tree" | tee -a "$LOG"
 "$HERE/lib/mutcheck.sh" "$PID" "$D/patch.diff" 2>&1 | grep -E "VIOLATION|property=$PID tier|INCONCLUSIVE|patch does not|^  " | cut -c1-300 | head -8 | tee -a "$LOG"
